@@ -22,6 +22,27 @@ CHECKS = {
         design_ref='DESIGN.md section 5 C07, section 4',
         note=('Trusted: vf/refsem.py tables (self-tested by algebraic laws in setup_cmd). FDE family: Belnap-Dunn lattice '
               'is the reference; the 12 N/B cells of the code are listed as open known findings (pinned by test_fde.py).')),
+    'C03': dict(
+        category='exploration',
+        technique='exhaustive small-argument enumeration + Hypothesis random arguments, truth-table reference oracle',
+        text=('Every argument of the enumerated fragment (exhaustive: true for it) and Hypothesis-generated larger ones '
+              'x all 57 logics (x option combinations in the random part) are built by the real prover and the verdict is '
+              'compared with an independent truth-table enumeration; termination without limits is asserted (step guard, '
+              'no premature, no quit flag). Decides the property on the enumerated fragment, samples it beyond.'),
+        design_ref='DESIGN.md section 5 C03',
+        note=('Trusted: vf/refsem.py. A wrong verdict is attributed to a root cause by re-checking every applied '
+              'operator rule locally (vf/attrib.py); B3E-family biconditional rules are open known findings.')),
+    'C04': dict(
+        category='exploration',
+        technique='complete enumeration of node shapes x contexts x valuations against reference semantics (finite-domain PBT oracle)',
+        text=('Complete finite enumeration (exhaustive: true): every logic x node shape x context, the expansion made by '
+              'the real rule compared in both directions with the reference semantics for every valuation of the '
+              'components (witnesses may denote any element / world; saturation over the canonical model of the branch); '
+              'frame rules run on every access-pair set over <= 3 worlds and compared with the required closure.'),
+        design_ref='DESIGN.md section 5 C04',
+        note=('Trusted: vf/refsem.py; modal operator rules judged against K semantics of the base logic, frame '
+              'conditions separately. Components are atomic (compound components are covered by the in-proof step '
+              'checker used for attribution).')),
 }
 
 NOT_YET = 'check not built yet in this session (planned, see DESIGN.md section 5); no claim is made'
